@@ -31,6 +31,7 @@ RULE = ("connect: every subset of the five protocols x every failing position x 
         "stream_file (8 variants: metadata given/not x initial volume known/not x AirPlay 1/2 receiver, real StreamClient and "
         "AirPlayV1/V2 protocol objects over fakes of what they acquire; + TXT records whose parsing raises) and play_url (local file / URL): "
         "a failure and a real cancellation at every collaborator call (points enumerated by a dry run), "
+        "the calls' own argument values (also ones failing by themselves), awaited releases taking 1..60 virtual seconds, "
         "every overlap (second call of either kind while the first is parked at every point; refused takeover "
         "by a foreign protocol; second call after the first failed); thorough adds fault x overlap products and "
         "PRNG-chosen call sequences. non-trivial = the call failed/was cancelled/was refused after at least one "
